@@ -7,7 +7,7 @@ import re
 from collections import deque
 
 from . import gh
-from .common import REPO, HarnessError
+from .common import REPO, HarnessError, Violation
 from .refs import KINDS
 
 STATES = list(range(0, 34)) + list(range(35, 43))
@@ -206,7 +206,8 @@ def python_dynamic():
         new, ev, calls, errs, _ = _probe(s, [])
         order = [k for k, l in calls if l == 1]
         if new != s or len(errs) != 1:
-            raise HarnessError("probe of state %d with an unmatched token: new state %r errors %r" % (s, new, errs))
+            raise Violation({"sub": "expected", "state": s},
+                            "state %d given a line that matches nothing: parser moves to state %r with errors %r (must stay and report one)" % (s, new, [str(e) for e in errs]))
         m = re.search(r"expected: (.*), got", str(errs[0]))
         exp = m.group(1).split(", ") if m else None
         # EOF flavour of the error tail
@@ -246,7 +247,8 @@ def python_lookaheads():
             res = getattr(p, "lookahead_%d" % i)(ctx, stub_token(["TagLine"], 1))
             q = [t.location["line"] for t in ctx.token_queue]
             if q != list(range(2, 2 + len(q))):
-                raise HarnessError("look-ahead %d reordered its queue: %r" % (i, q))
+                raise Violation({"sub": "table", "sibling": "ruby", "state": "lookaheads"},
+                                "look-ahead %d leaves the lines it read out of order in the queue: %r" % (i, q))
             if res:
                 expected.append(k)
             elif len(q) > 1:
